@@ -31,6 +31,13 @@ def run (cmd : String) (a : Args) : Except String String := do
     let members ← if ms == "-" then pure [] else (ms.splitOn ",").mapM parseMember
     let t : SubfnTable := ⟨"", pretty, members⟩
     pure (String.intercalate "," ((List.range 256).map fun v => subfnName t v))
+  | "spec.iso" =>     -- the ISO sub-function constant tables: cls|name:e:v,name:r:lo:hi;...
+    pure (String.intercalate ";" (isoSubfn.map fun t =>
+      t.cls ++ "|" ++ String.intercalate "," (t.members.map fun m =>
+        match m.2 with
+        | .exact v => s!"{m.1}:e:{v}"
+        | .range lo hi => s!"{m.1}:r:{lo}:{hi}"))
+      ++ ";Dtc.Format|" ++ String.intercalate "," (isoDtcFormat.map fun c => s!"{c.1}:e:{c.2}"))
   | "spec.first" =>   -- first constant with a value, over 0..255 (Dtc.Format)
     let ms ← getStr a "members"
     let members ← if ms == "-" then pure [] else (ms.splitOn ",").mapM parseMember
